@@ -8,7 +8,7 @@
 (* be coherent.                                                                 *)
 EXTENDS Integers, Sequences, TLC, Json, IOUtils
 VARIABLES l, f
-M == INSTANCE LocalNetModel WITH Nets <- {"n"}, MaxLen <- 0, Keep <- 1, Seed <- 0, net <- "n", flags <- f, m0type <- "x", hist <- <<>>, rmabs <- FALSE, refined <- FALSE
+M == INSTANCE LocalNetModel WITH Nets <- {"n"}, MaxLen <- 0, Keep <- 1, Seed <- 0, Full <- 0, net <- "n", flags <- f, m0type <- "x", hist <- <<>>, rmabs <- FALSE, refined <- FALSE
 TraceLog == ndJsonDeserialize(IOEnv.TRACE)
 B(x) == x = 1
 Flags(r) == <<B(r.flags[1]), B(r.flags[2]), B(r.flags[3]), B(r.flags[4])>>
